@@ -59,6 +59,7 @@ def guard_cursor(ctx, fn, bb):
 
 VEC = "writes to an in-memory Vec never fail"
 TABLE = [
+    (r"Encoding>::write_len$", r"^sub:SubWithOverflow#0$", "SAFE", "encode side: the request buffer starts with the 4 placeholder bytes written by `resize(4, 0)` in every caller (local data, not agent input)", None),
     (r"AgentClient::(request_identities|sign|query_extension)$", r"index:index vec::Vec\[usize\]", "GUARDED", "response tested non-empty first", guard_nonempty),
     (r"AgentClient::prepare_sign_request$", r"unwrap:", "SAFE", VEC, None),
     (r"AgentClient::read_signature$", r"sliceop:slice::copy_from_slice", "GUARDED", "length of the agent-supplied signature checked", guard_len_eq),
